@@ -8,6 +8,8 @@ import (
 	"strings"
 	"time"
 
+	altsim "digsim/altsim"
+
 	"go.uber.org/dig"
 )
 
@@ -180,7 +182,7 @@ func NewWorld(h *History) *World {
 	if h.Cfg.DryRun {
 		opts = append(opts, dig.DryRun(true))
 	}
-	curValMask = h.Cfg.ValMask
+	curValMask, curAltMask = h.Cfg.ValMask, h.Cfg.AltMask
 	w.C = dig.New(opts...)
 	root := dig.VerifRootScope(w.C)
 	dig.VerifSeedRand(root, mix64(h.Cfg.ShuffleSeed, 0))
@@ -259,6 +261,9 @@ func valType(t int) reflect.Type {
 	if isVal(t) {
 		return vTypes[t]
 	}
+	if isAlt(t) {
+		return altsim.KTypes[altIndex(t)]
+	}
 	return kTypes[t]
 }
 
@@ -286,7 +291,7 @@ func paramType(p Param, positional bool) reflect.Type {
 	case PSingle:
 		return valType(p.T)
 	case PGroup:
-		if p.NamedSlice && !IsIface(p.T) && !isVal(p.T) {
+		if p.NamedSlice && !IsIface(p.T) && !isVal(p.T) && !isAlt(p.T) {
 			return ksTypes[p.T]
 		}
 		return reflect.SliceOf(valType(p.T))
@@ -495,6 +500,8 @@ func (w *World) mint(fn, exec, leaf, elem int, t int, poison bool, inputs []int6
 		p = kNew[t-TIface](s)
 	case isVal(t):
 		p = vNew[t](s)
+	case isAlt(t):
+		p = altsim.KNew[altIndex(t)](s)
 	default:
 		p = kNew[t](s)
 	}
